@@ -255,9 +255,13 @@ claim("C16",
       "In-memory store only: under the invariant 'every run's log is numbered 0,1,2,... in list order', append_event is "
       "proved to append exactly one record with the next consecutive number (earlier records and other runs' logs "
       "untouched, invariant kept), and query_events to return only records of this run numbered above the cursor, in "
-      "publication order and once each, all of them when no limit is given and at most `limit` otherwise.",
-      "subscribe_events (an async generator with a condition variable: cursoring, termination right after the first "
-      "terminal event), the SQLite store (MAX+1 in SQL) and the HTTP layer (_resolve_event_stream) are not under "
+      "publication order and once each, all of them when no limit is given and at most `limit` otherwise. For both "
+      "stores' subscribe_events a structural obligation (AST, replayed by a native scenario on the real stores) "
+      "decides the statement's last clause: every yielded record is tested for being terminal right after its yield "
+      "and the generator returns on the first one, wherever it sits in a batch. The server adapter is proved to "
+      "append every live event to the run's log exactly once (shared with C15).",
+      "subscribe_events' cursoring (an async generator with a condition variable), the SQLite store's numbering "
+      "(MAX+1 in SQL) and the HTTP layer (_resolve_event_stream) are not under "
       "contract; 'the first record returned is exactly number k+1' needs a counting argument that is not stated.",
       category="other")
 
